@@ -19,6 +19,8 @@ pub struct BatchCfg {
     pub runs_override: Option<usize>,
     pub wall_override: Option<f64>,
     pub verif_dir: String,
+    /// Where evidence and replay files go (normally the same as verif_dir).
+    pub out_dir: String,
 }
 
 #[derive(serde::Deserialize, Default)]
@@ -271,7 +273,7 @@ pub fn run_batch(cfg: &BatchCfg, spec: &PropSpec) -> i32 {
     });
     let mut evidence = evidence;
     evidence["coverage"]["build"] = json!(if cfg!(feature = "bench") { "benchmark feature (mempool/benchmark + consensus/benchmark)" } else { "default features" });
-    let ev_dir = format!("{}/evidence", cfg.verif_dir);
+    let ev_dir = format!("{}/evidence", cfg.out_dir);
     let _ = std::fs::create_dir_all(&ev_dir);
     // A check that covers two build configurations runs the benchmark build first and merges
     // its evidence into the final file.
@@ -343,7 +345,7 @@ fn confirm_minimise_replay(cfg: &BatchCfg, spec: &PropSpec, sc: &Scenario, v: &V
     let (min_sc, min_rep) = minimise(sc, &v.prop, &v.rule, again);
     let mv = min_rep.violations.iter().find(|x| x.prop == v.prop && x.rule == v.rule).cloned().unwrap_or_else(|| v.clone());
     // 3. write the replay file.
-    let dir = format!("{}/replays", cfg.verif_dir);
+    let dir = format!("{}/replays", cfg.out_dir);
     std::fs::create_dir_all(&dir).map_err(|e| e.to_string())?;
     let path = format!("{}/{}-{}{}-{}.json", dir, spec.id, if cfg!(feature = "bench") { "bench-" } else { "" }, sc.seed, v.rule);
     let rf = ReplayFile {
